@@ -303,8 +303,12 @@ def binop(ex, st, op, a, b, node):
     if isinstance(op, ast.Mult) and isinstance(a, PyList) and ty.is_z3(b):
         if len(a.items) != 1:
             raise _U("list * symbolic int", node)
-        t = ty.type_of(a.items[0])
-        (c,) = ty.pack(t, a.items[0])
+        item = a.items[0]
+        t = ty.type_of(item)
+        if t is None and (ty.is_num_const(item) or isinstance(item, float)):
+            t = ty.Real                       # [0] * n, [float("inf")] * n: a constant real vector
+            item = ex.coerce(ty.Real, item, node)
+        (c,) = ty.pack(t, item)
         return _out(ty.SeqV(t, [z3.K(z3.IntSort(), c)], z3.If(b >= 0, b, 0)), st)
     if isinstance(op, ast.Mod) and isinstance(a, (str, ty.OpaqueV)):
         return _out(ty.OpaqueV("str"), st)
